@@ -1,14 +1,14 @@
 SPECIFICATION Spec
 CONSTANTS
-  MaxH = 2
-  MaxRestarts = 1
+  MaxH = 0
+  MaxRestarts = 0
   FullNode = FALSE
   Cap = 2
-  Weaken = "loadNoHeight"
+  Weaken = "compactToMsgRound"
   GapFix = FALSE
-  CertRounds = {1}
+  CertRounds = {1, 2}
   Direct = FALSE
   MidCrash = FALSE
   Timeouts = FALSE
   MaxWriteFaults = 0
-INVARIANT RestartResumes
+PROPERTY HighestMonotoneCert
